@@ -8,7 +8,8 @@ arbitrary loop state; by the snoc law  T(xs ++ [x]) = T(xs) ++ step(x)  this giv
   unpivot.unpivot_rows           = flat-map: one fresh row per (input row, unpivoted field) = keys U kept cells U {value}
   *.func                         = dispatch: selected resources get the transducer, all others pass as the same object
 """
-from contracts.common import Item, mk_resource, mk_package, run_spec, ghost_row, expect_no_raise_or_same
+from contracts.common import (Item, mk_resource, mk_package, run_spec, ghost_row, expect_no_raise_or_same,
+                              dispatch_symbolic, gen_of)
 
 TRUSTED = ['T1 pyvc model of Python (DESIGN 3)', 'T2 re (unpivot key derivation: re.sub / fullmatch uninterpreted)',
            'T3 copy.deepcopy yields an equal, disjoint object', 'T16 z3 / cvc5']
@@ -143,83 +144,6 @@ def nat_old_style(h):
         h.check(ok, 'filter_rows.old_style_conditions.func', (row, equals, not_equals), want[:2], got[:2])
 
 
-def dispatch_symbolic(vc, relpath, qualpath, dotted, maker_name, maker_args, target_fn_names, spec_gen_args, fk_extra=None,
-                      selector_kinds=('none', 'list', 'str')):
-    """shared proof of the S2 shape
-         yield package.pkg ; for r in package: yield T(r, ..) if matcher.match(r.res.name) else r
-       for a maker `maker_name(**maker_args(it, selector))` returning the package function."""
-    from pyvc.api import (real_function, LoopSpec, check, cover, SV, StrS, str_seq, sym_str, GenObj, PyList, value_matches,
-                          yields_of, conj)
-    from pyvc import lib
-    import z3
-    fk = vc.under_contract(relpath, qualpath)
-    for kind in selector_kinds:
-        def thunk(it, kind=kind):
-            maker = real_function(it, dotted, maker_name)
-            if kind == 'none':
-                sel = None
-            elif kind == 'list':
-                sel = PyList([])          # replaced below by an opaque list of names
-                sel = lib.SymList(str_seq(it, 'sel'), [])
-            else:
-                sel = sym_str(it, 'selpat')
-            args, kwargs = maker_args(it, sel)
-            func = it.call(maker, args, kwargs)
-            package = mk_package(it)
-
-            def want_match(name):
-                if kind == 'none':
-                    return z3.BoolVal(True)
-                if kind == 'list':
-                    return z3.Contains(sel.prefix.term, z3.Unit(name.t))
-                return lib.RE_FULLMATCH(sel.t, name.t)
-
-            def at_start(it, env, r):
-                it.path.info['in_iter'] = True
-                return r
-
-            def at_end(it, env, r, events):
-                ys = yields_of(events)
-                m = want_match(r.attrs['res'].attrs['name'])
-                if len(ys) != 1:
-                    check(it, 'one-yield-per-resource[%s]' % kind, False)
-                    return
-                y = ys[0].obj
-                passed = y is r
-                if isinstance(y, GenObj):
-                    okfn = y.fn.name in target_fn_names
-                    wa = spec_gen_args(it, r, env)
-                    argsok = value_matches(it, tuple(y.args) + tuple(y.kwargs[k] for k in sorted(y.kwargs)), tuple(wa))
-                    transformed = conj([okfn, argsok])
-                else:
-                    transformed = False
-                # selected <=> transformed ; not selected <=> the same object passes
-                check(it, 'selected-transformed[%s]' % kind, z3.Implies(m, _b(transformed)))
-                check(it, 'unselected-identical[%s]' % kind, z3.Implies(z3.Not(m), _b(passed)))
-                check(it, 'no-row-pulled-by-dispatcher[%s]' % kind, r.stream.drained is False and
-                      not [e for e in events if e.kind in ('Drain', 'Pull') and getattr(e, 'src', None) is r.stream])
-                cover(it, 'iter-reachable[%s]' % kind)
-            label = qualpath[-1] + '#L0'
-            it.loops[label] = LoopSpec(at_start=at_start, at_end=at_end,
-                                       at_exit=lambda it, env: it.path.info.__setitem__('exit_mark', len(it.path.events)))
-            g = it.call(func, [package])
-            it.run_generator(g)
-            pre = it.path.events[:it.path.info.get('exit_mark', 0)]
-            ys = yields_of(it.path.events)
-            # first yield is the package itself; nothing else is yielded outside the loop
-            check(it, 'first-yield-is-package[%s]' % kind, len(ys) >= 1 and ys[0].obj is package.attrs['pkg'])
-            check(it, 'only-package-outside-loop[%s]' % kind, len(ys) == 1)
-            check(it, 'drains-package[%s]' % kind, package.stream.drained is True)
-        paths = vc.explore(fk, thunk, min_paths=2 if kind == 'none' else 3)
-        expect_no_raise_or_same(vc, fk, paths)
-    return fk
-
-
-def _b(x):
-    import z3
-    return z3.BoolVal(x) if isinstance(x, bool) else x
-
-
 def sym_filter_func(vc):
     from pyvc.api import ufunc
     cond = ufunc('condition')
@@ -227,10 +151,10 @@ def sym_filter_func(vc):
     def maker_args(it, sel):
         return [], dict(condition=cond, resources=sel)
 
-    def gen_args(it, r, env):
-        return [r, cond]
+    def arg_ok(it, env, r, g):
+        return len(g.args) == 2 and g.args[0] is r and g.args[1] is cond
     dispatch_symbolic(vc, 'dataflows/processors/filter_rows.py', ['filter_rows', 'func'],
-                      'dataflows.processors.filter_rows', 'filter_rows', maker_args, {'process_resource'}, gen_args)
+                      'dataflows.processors.filter_rows', 'filter_rows', maker_args, gen_of({'process_resource'}, arg_ok))
     vc.under_contract('dataflows/helpers/resource_matcher.py', ['ResourceMatcher', '__init__'])
     vc.under_contract('dataflows/helpers/resource_matcher.py', ['ResourceMatcher', 'match'])
 
@@ -356,10 +280,9 @@ def sym_dedup_func(vc):
     def maker_args(it, sel):
         return [], dict(resources=sel)
 
-    def gen_args(it, r, env):
-        return [r]
     dispatch_symbolic(vc, 'dataflows/processors/deduplicate.py', ['deduplicate', 'func'],
-                      'dataflows.processors.deduplicate', 'deduplicate', maker_args, {'deduper'}, gen_args)
+                      'dataflows.processors.deduplicate', 'deduplicate', maker_args, gen_of({'deduper'}),
+                      kinds=('none', 'list', 'str'))
 
 
 # ------------------------------------------------------------------------------------------------ unpivot
